@@ -234,7 +234,7 @@ PROPS = {
     },
     "C06": {
         "module": "ZenonVerif.Props.C06",
-        "streams": [S("vdb", 400, 20000, arg="mix=pop"), S("ledger", 40, 2000), S("sync-batches", 220, 6000, timeout=3000)],
+        "streams": [S("vdb", 400, 20000, arg="mix=pop"), S("ledger", 40, 2000), S("sync-batches", 300, 6000, timeout=3000)],
         "rule": VDB_RULE + "; pop-heavy mix: views are opened before a branch switch and re-read after it",
         "partial": "pool-after-switch and consensus statistics after a switch are monitor-only: the ledger stream rolls the producing "
                    "node back by 1-3 momentums (pool must be empty, conservation at the pool state) and the sync-batches stream compares "
@@ -481,10 +481,27 @@ PROPS = {
                 "GetBlocks lists of 0..2000 held/unknown hashes), then random well-formed requests (50%), wrong-shape RLP, truncated, "
                 "garbage, huge length prefixes, declared sizes around 10 MiB, unknown codes, two real 10 MiB payloads; "
                 "distinct = distinct (message class, observed reply) lines; every line is one real session replayed through the model. "
+                "Liveness part (s_p2p_live.go, own short-lived node, 16 rounds x 8 variants): after EVERY message — account blocks the "
+                "verifier refuses (bad signature, stale hash, foreign key, gap, unsigned, second receive of a send), blocks that pass "
+                "verification and are refused by the POOL (fork siblings in both arrival orders, in one TxMsg and in two, against sends "
+                "and receives, at the next height and above; duplicates; children of refused blocks; a refused block in front of a valid "
+                "one), the next momentum corrupted at five stages by NewBlockMsg and BlocksMsg — the chain's insert lock can be taken "
+                "(goroutine + 10 s), an honest peer's valid TxMsg block on another session reaches the pool, an honest request is "
+                "answered, and every round ends with the node producing its next momentum (20 s); a stall is reported as class=stalled-* "
+                "with the message sequence. The insert-lock probe also follows every message of the main part. "
                 "frame / disc streams (monitors only, no model): rlpxFrameRW.ReadMsg on 1-3 valid frames with a bit flipped in "
                 "header / header MAC / body / frame MAC, truncated, re-ordered, replayed, with a byte inserted, or garbage; "
                 "discover.decodePacket on signed ping/pong/findnode/neighbors packets with a bit flipped in hash / signature / data, "
-                "truncated, extended, garbage, and re-hashed corrupted bodies",
+                "truncated, extended, garbage, and re-hashed corrupted bodies; re-sealed families (s_wire_sealed.go): the inner bytes are "
+                "mutated FIRST and sealed afterwards with the sender's own key (disc: signature over the payload + hash; frame: header MAC "
+                "+ frame MAC), so every shape reaches the parsing code — disc: payload lengths 0 (no packet-type byte), 1, every "
+                "truncation of every packet type, every type byte 0..255, 0..n+2 list fields, wrong list lengths, trailing bytes, "
+                "expired/unexpired/extreme expirations, IP sizes, 0..16 neighbours, datagrams of 1279/1280/1281 bytes; oracle: malformed "
+                "(not a type byte 1..4 + one RLP value of that shape) => error, never a panic, accepted => attributed to the signer; the "
+                "same datagrams go to a live ListenUDP node on loopback from an unbonded and from a bonded peer, which must keep "
+                "answering an honest ping (class=live-node-silent); frame: contents of length 0, every single byte, code strings "
+                "promising 1..9 bytes, non-canonical / list / >64-bit codes, padding boundaries, arbitrary header tail and padding bytes; "
+                "oracle: content = RLP uint64 code + rest, anything else => error, the next frame is still read",
         "partial": "proved: reply caps (every chain, every request, no premise), totality (every message; premises on the node only: "
                    "it holds its genesis momentum and fewer than 2^64-1 momentums, both shown necessary) and size gate of the handler "
                    "MODEL; the two clauses that were false of the code (F7a, F7b) are repaired (d85e958, 99f2642) and their inputs are "
@@ -499,7 +516,7 @@ PROPS = {
     },
     "C16": {
         "module": "ZenonVerif.Props.C16",
-        "streams": [S("sync-batches", 220, 6000, timeout=3000)],
+        "streams": [S("sync-batches", 300, 6000, timeout=3000)],
         "rule": "sync-batches stream: a mock producer builds a trunk of 78 momentums with user sends/receives and 7 side branches "
                 "(fork 1..36 below the tip); followers receive batches through the real chainBridge.InsertChain after an RLP round "
                 "trip: directed sweep fork depth {1,2,3,5,10,17,29,30,31,32,35} x tail {shorter,equal,+1,+3}; 10 corruption kinds x "
@@ -512,12 +529,28 @@ PROPS = {
                 "such an element counts as valid when it is certain to be skipped (counter corrupt-ignored-pooled-block; the monitor still "
                 "checks that the node ends up with the producer's bytes) and is replaced by a momentum-level corruption otherwise. "
                 "n counts test batches (the clean "
+                "continuation. The history carries contract traffic (fusions, QSR deposits/withdrawals, token issues, delegations: "
+                "contract receives with and without descendant blocks, contract sends, user receives of contract sends). Account-block "
+                "side (s_syncbatches_ab.go): 30 mutations of ONE account block inside a delivered momentum, chosen by block type (user "
+                "send/receive, contract receive, contract receive with descendants, stand-alone contract send) and position "
+                "(first/last/middle block; first/middle/last momentum): fields the hash does not cover (public key / signature present on a "
+                "contract block — also a valid signature by a pillar key —, absent / truncated / foreign on a user block; changes hash; plasma "
+                "fields; uncovered fields and content of descendants; descendant lists dropped / duplicated / re-hashed) and covered fields "
+                "with and without re-hashing; every mutation once per run (directed, a follower walking up the trunk so that refusals "
+                "accumulate) and at random (2 in 5 invalid batches). Two-step monitor: after EVERY delivery nothing in the node's pool of "
+                "unconfirmed blocks differs from the producer's bytes (M4; M1 does the same for the chain), and after every refused "
+                "delivery the genuine version of the same batch is delivered next (its line is replayed by the model; a batch of genuine "
+                "momentums that extends the frontier must be adopted: model-free monitor M5). Mutations of fields the node recomputes for "
+                "itself (plasma fields, descendants under an unchanged hash, call data of embedded sends, the stand-alone copy of a "
+                "contract send) are `lenient`: adopting with the producer's bytes and refusing both satisfy C16, the valid bit of the "
+                "line follows the node's choice. n counts test batches (the clean "
                 "batches that position a follower are extra lines, also replayed); distinct = distinct lines",
         "partial": "momentum + account-block verification is an oracle (`valid`) of the model — C03/C05 own it; the stream supplies it as "
                    "'bytes are the producer's own' and the monitor checks the node only ever holds such bytes. Downloader/fetcher "
                    "queueing and peer dropping are not modelled. insert_total holds for every node and batch (F7c repaired in 264f72a: "
                    "empty and unlinkable batches are refused without touching the node); the rollback happens before "
-                   "verification (F7d, known finding, negative witness rollback_before_verification)",
+                   "verification (F7d, known finding, negative witness rollback_before_verification); a user block whose ChangesHash "
+                   "was altered stays in the pool of the node that refused the momentum around it (the C16 view of known finding F9)",
         "assumptions": ["full verification of one delivered momentum on the state it extends is an oracle valid : DM -> Bool plus the link test",
                         "hashes are collision-free on the inputs that arise (8-byte prefixes identify momentums in the line protocol)"],
     },
